@@ -401,8 +401,29 @@ func (e *escaper) escapeBranch(c context, n *parse.BranchNode, nodeName string) 
 		// The "true" branch of a "range" node can execute multiple times.
 		// We check that executing n.List once results in the same context
 		// as executing n.List twice.
-		c1, _ := e.escapeListConditionally(c0, n.List, nil)
+		// The edits recorded for the body are those of its first iteration. They are only
+		// valid for later iterations if re-entering the body asks for the same edits.
+		sameEdits := true
+		c1, _ := e.escapeListConditionally(c0, n.List, func(e1 *escaper, _ context) bool {
+			for node, s1 := range e1.actionNodeEdits {
+				if s0, ok := e.actionNodeEdits[node]; ok && strings.Join(s0, "|") != strings.Join(s1, "|") {
+					sameEdits = false
+				}
+			}
+			for node, name1 := range e1.templateNodeEdits {
+				if name0, ok := e.templateNodeEdits[node]; ok && name0 != name1 {
+					sameEdits = false
+				}
+			}
+			return false
+		})
 		c0 = join(c0, c1, n, nodeName)
+		if c0.state != stateError && !sameEdits {
+			c0 = context{
+				state: stateError,
+				err:   errorf(ErrRangeLoopReentry, n, n.Line, "actions in the loop body need different escaping on later iterations"),
+			}
+		}
 		if c0.state == stateError {
 			// Make clear that this is a problem on loop re-entry
 			// since developers tend to overlook that branch when
